@@ -47,6 +47,12 @@ def handleSep (op : String) (args : List Sexp) : Option Sexp := do
       pure (exceptToSexp judgementToSexp ((← parseGraph g).areDSeparated (← asNat? a) (← asNat? b) (← asNats? c)))
   | "evidence", [g, a, b, c] =>
       pure (exceptToSexp graphToSexp ((← parseGraph g).dSepEvidence (← asNat? a) (← asNat? b) (← asNats? c)))
+  | "canon", [s, l, r, c] =>
+      let sep ← asBool? s
+      let l ← asNat? l
+      let r ← asNat? r
+      let c ← asNats? c
+      pure (tagged "ok" [boolSexp (Judgement.isCanonical ⟨sep, l, r, c⟩), judgementToSexp (Judgement.create l r c sep)])
   | "is_canonical", [s, l, r, c] =>
       pure (tagged "ok" [boolSexp (Judgement.isCanonical ⟨← asBool? s, ← asNat? l, ← asNat? r, ← asNats? c⟩)])
   | "create", [l, r, c] =>
